@@ -133,7 +133,12 @@ func runC11(c *core.Case) *core.Result {
 		dts = append(dts, d)
 	}
 	mode := c.Index % 4 // 0,1: gate one update at a database command; 2: free-running back to back; 3: one update starts late (out of order)
-	gateAt := []string{"find -_-Snapshots", "find -_-Operations", "insert -_-Snapshots", "update colA"}[r.Intn(4)]
+	// gate points are named by kind (read / write) and collection, not by the command a
+	// particular version of the repository layer uses there
+	gi := r.Intn(4)
+	gateAt := []string{"read -_-Snapshots", "read -_-Operations", "write -_-Snapshots", "write colA"}[gi]
+	gateColl := []string{"-_-Snapshots", "-_-Operations", "-_-Snapshots", "colA"}[gi]
+	gateWrite := gi >= 2
 	var gmu sync.Mutex
 	var gate chan struct{}
 	gated := false
@@ -152,10 +157,10 @@ func runC11(c *core.Case) *core.Result {
 			return fakemongo.Action{}
 		}
 		if mode != 2 {
-			if currentPush == gatePush && cmd.Key() == "find -_-Snapshots" {
+			if currentPush == gatePush && cmd.Coll == "-_-Snapshots" && cmd.IsData() && !isWrite(cmd.Name) {
 				inUpdate = true // only the background snapshot update reads -_-Snapshots
 			}
-			if !gated && currentPush == gatePush && cmd.Key() == gateAt && inUpdate {
+			if !gated && currentPush == gatePush && cmd.IsData() && cmd.Coll == gateColl && isWrite(cmd.Name) == gateWrite && inUpdate {
 				gated = true
 				gate = make(chan struct{})
 				return fakemongo.Action{GateBefore: gate, OnReached: func() {
@@ -362,7 +367,7 @@ func runC11(c *core.Case) *core.Result {
 	lastVer := int64(-1)
 	writes := 0
 	for _, cmd := range w.b.DB.LogFrom(0) {
-		if cmd.Name != "update" || cmd.Coll != "colA" || cmd.Failed {
+		if cmd.Coll != "colA" || cmd.Failed || len(cmd.Post) == 0 { // any kind of write command
 			continue
 		}
 		// judged by what the write leaves stored (the post-image the stand-in records), not by the
